@@ -76,6 +76,9 @@ def _gen_shaper(rng, triples, source, ns_pressure, bnodes=False, tp=gen.RDF_TYPE
         o["namespaces_to_ignore"] = rng.choice([[gen.EX], [gen.RDF_NS], [gen.EX, gen.RDF_NS], [gen.OTHER]])
     sp["options"] = o
     sp["ns"] = gen.gen_namespaces(rng, shape_prefix_pressure=ns_pressure)
+    if source == "turtle" and rng.random() < 0.6:
+        # the caller does not declare the vocabulary of the data; the document binds it to the empty prefix
+        sp["ns"] = {k: v for k, v in sp["ns"].items() if k != gen.EX}
     if rng.random() < 0.3:
         sp["shapes_namespace"] = rng.choice(["http://shapes.org/a/", "http://shapes.org/b#"])
     return sp
@@ -103,7 +106,7 @@ def generate(rng, tier, index):
     tp = gen.CUSTOM_TYPE if rng.random() < 0.12 else gen.RDF_TYPE
     triples = gen.retype(gen.ensure_class(triples), tp)
     # rdflib-parsed sources (url) relabel blank nodes on every pass (C08's stated exception): no bnodes there
-    sources = ["raw", "file", "files", "gz", "zip", "zips", "rdflib"] + ([] if bnodes else ["url", "urls"]) + (["endpoint", "endpoint"] if endpoint_ok else [])
+    sources = ["raw", "file", "files", "gz", "zip", "zips", "rdflib"] + ([] if bnodes else ["url", "urls", "turtle"]) + (["endpoint", "endpoint"] if endpoint_ok else [])
     n_sh = 2 if rng.random() < 0.4 else 1
     if tier == "thorough" and rng.random() < 0.15:
         n_sh = 3
@@ -220,6 +223,7 @@ def generate(rng, tier, index):
         "share": share,
         "ops": ops,
         "knob": rng.choice(KNOBS),
+        "short_write_max": rng.choice([0, 0, 0, 5, 100, 1000]),      # raw layer of file sinks accepts that many bytes per call
         "row_seed": rng.randrange(1 << 30),
     }
     if rng.random() < 0.12:
@@ -285,6 +289,9 @@ class _World(object):
             parts = [self.triples[i:i + k] for i in range(0, len(self.triples), k)] or [[]]
             return {"graph_list_of_files_input": [sim.write_file("g_%s_%d_%d.nt" % (tag, self.n_files, j), gen.to_nt(p))
                                                   for j, p in enumerate(parts)]}, None
+        if src == "turtle":
+            # a Turtle document that binds the empty prefix (the one sheXer prefers for its shapes) to a vocabulary of its own
+            return {"raw_graph": gen.to_turtle(self.triples, empty_label=gen.EX), "input_format": "turtle"}, None
         if src == "rdflib":
             if tag.startswith("sut") and self.scen["share"].get("rdflib_graph"):
                 if self.shared_graph is None:
@@ -428,6 +435,7 @@ def execute(scen, scratch):
     if "lifetimes" in scen:
         return _execute_lifetimes(scen, scratch)
     sim = Sim(scratch)
+    sim.fs.short_write_max = scen.get("short_write_max", 0)
     violations = []
     verdicts = []
     out_texts = []
